@@ -41,10 +41,22 @@ def main():
     ap = argparse.ArgumentParser()
     ap.add_argument('ids', nargs='*')
     ap.add_argument('--check')
+    ap.add_argument('--matrix', help='comma separated list of check ids: run every given seeded change against each of them (cross detection); results in seeded/MATRIX.json')
     ap.add_argument('--jobs', type=int, default=4)
     ap.add_argument('--tier', default='quick')
     a = ap.parse_args()
     ids = a.ids or sorted(d for d in os.listdir(os.path.join(HERE, 'seeded')) if os.path.isdir(os.path.join(HERE, 'seeded', d)))
+    if a.matrix:
+        checks = a.matrix.split(',')
+        jobs_ = [(i, c, a.tier) for i in ids for c in checks if c != i.split('-')[0]]
+        mp = os.path.join(HERE, 'seeded', 'MATRIX.json')
+        mat = json.load(open(mp)) if os.path.exists(mp) else {}
+        with concurrent.futures.ThreadPoolExecutor(a.jobs) as ex:
+            for sid, prop, status, why, t in ex.map(run_one, jobs_):
+                print('%-7s by %-5s %-9s %5.1fs  %s' % (sid, prop, status.split()[0], t, why[:100]), flush=True)
+                mat.setdefault(sid, {})[prop] = status.split()[0]
+                json.dump(mat, open(mp, 'w'), indent=1, sort_keys=True)
+        return
     res = {}
     with concurrent.futures.ThreadPoolExecutor(a.jobs) as ex:
         for sid, prop, status, why, t in ex.map(run_one, [(i, a.check, a.tier) for i in ids]):
